@@ -79,6 +79,13 @@ def main():
         rc2, out2 = sh(f'cargo test -p {crate} --offline --test {tname}', cwd=scratch, env=env)
         res['demo_fails_with_patch'] = rc2 != 0
         res['demo_output_tail'] = out2[-600:]
+        if rc2 == 0:
+            # changes that only show without debug assertions (C08-style): try the release profile
+            rc3, out3 = sh(f'cargo test -p {crate} --offline --release --test {tname}', cwd=scratch, env=env)
+            if rc3 != 0 and 'test result: FAILED' in out3:
+                res['demo_fails_with_patch'] = True
+                res['demo_profile'] = 'release'
+                res['demo_output_tail'] = out3[-600:]
         os.remove(dpath)   # the demo is not part of the tree the checks see
         res['confirmed'] = bool(res['demo_clean_passes'] and res['patch_applies'] and res['suite_passes_with_patch'] and res['demo_fails_with_patch'])
         checks = {}
@@ -99,7 +106,7 @@ def main():
         shutil.copy(patch, os.path.join(out_dir, 'patch.diff'))
     open(os.path.join(out_dir, 'demo.rs'), 'w').write(demo)
     meta_out = {'breaks_property': pid, 'summary': meta.get('summary'), 'needs_to_manifest': meta.get('needs'),
-                'author_ran': meta.get('ran'), 'confirmation': {k: res.get(k) for k in ('demo_clean_passes', 'patch_applies', 'suite_passes_with_patch', 'suite_passed_count', 'demo_fails_with_patch', 'confirmed')},
+                'author_ran': meta.get('ran'), 'confirmation': {k: res.get(k) for k in ('demo_clean_passes', 'patch_applies', 'suite_passes_with_patch', 'suite_passed_count', 'demo_fails_with_patch', 'demo_profile', 'confirmed')},
                 'checks_run': res.get('checks'), 'detected_by': res.get('detected_by')}
     json.dump(meta_out, open(os.path.join(out_dir, 'meta.json'), 'w'), indent=1)
     print(json.dumps({k: res[k] for k in ('seed', 'confirmed', 'detected_by')}), {p: c['exit'] for p, c in res.get('checks', {}).items()})
